@@ -1,5 +1,6 @@
-(* C14 proofs, part 1: basic facts and the specification of checkAllowedByAuthEvents's loop
-   (gather) against a provider that is a function of the requested ID. *)
+(* C14 proofs, part 1: basic facts, termination of checkAllowedByAuthEvents's loop (gather) for
+   ANY provider (since fix F82), and its specification against a provider that is a function of
+   the requested ID. *)
 From Coq Require Import List NArith Bool Lia.
 From Verif Require Import Fed.Filters Fed.Spec.
 Import ListNotations.
@@ -23,65 +24,78 @@ Proof. intros H. unfold mset; simpl. apply N.eqb_neq in H. now rewrite H. Qed.
 Arguments mset : simpl never.
 Arguments mget : simpl never.
 
-(* ---------- repeated AddEvent ---------- *)
-Inductive stut : list event -> list event -> Prop :=
-| stut_nil : stut [] []
-| stut_keep a l l' : stut l l' -> stut (a :: l) (a :: l')
-| stut_dup a l l' : stut l l' -> stut (a :: l) (a :: a :: l').
-
-Lemma stut_refl l : stut l l.
-Proof. induction l; constructor; auto. Qed.
-
-Lemma stut_app l1 l1' l2 l2' : stut l1 l1' -> stut l2 l2' -> stut (l1 ++ l2) (l1' ++ l2').
+Lemma settle_defined m x : mget (settle m x) x <> None.
 Proof.
-  induction 1; simpl; intros; auto.
-  - apply stut_keep; auto.
-  - apply stut_dup; auto.
+  unfold settle. destruct (mget m x) eqn:H; [congruence|]. rewrite mget_mset_same. discriminate.
 Qed.
 
-Lemma stut_allowed allowed (H : stutter_invariant allowed) e l l' :
-  stut l l' -> forall pre, allowed e (pre ++ l') = allowed e (pre ++ l).
+(* ---------- termination, for any provider (stateful, answering with anything) ---------- *)
+Section GatherTotal.
+  Variable PS : Type.
+  Variable pcall : PS -> list N -> PS * panswer.
+
+  Theorem gather_total : forall aes fuel hp acc m ps,
+    (2 * length aes < fuel)%nat ->
+    fst (fst (fst (gather PS pcall fuel hp aes acc m ps))) <> GOutOfFuel.
+  Proof.
+    induction aes as [|x rest IH]; intros fuel hp acc m ps Hf.
+    - destruct fuel; [simpl in Hf; lia|]. simpl. discriminate.
+    - destruct fuel as [|f]; [simpl in Hf; lia|]. simpl in Hf.
+      assert (Hknown : forall f' acc' m' ps', (2 * length rest < f')%nat -> mget m' x <> None ->
+                fst (fst (fst (gather PS pcall (S f') hp (x :: rest) acc' m' ps'))) <> GOutOfFuel).
+      { intros f' acc' m' ps' Hf' Hm. simpl. destruct (mget m' x) as [[a|]|]; [| |congruence].
+        - destruct (is_state a); [|simpl; discriminate].
+          destruct (conflict a acc'); [simpl; discriminate|]. now apply IH.
+        - now apply IH. }
+      simpl gather. destruct (mget m x) as [[a|]|] eqn:Hm.
+      + destruct (is_state a); [|simpl; discriminate].
+        destruct (conflict a acc); [simpl; discriminate|]. apply IH. lia.
+      + apply IH. lia.
+      + destruct hp; [|apply IH; lia].
+        destruct (pcall ps [x]) as [ps' ans]. destruct f as [|f']; [lia|].
+        destruct ans as [[|e ev]|].
+        * apply Hknown; [lia|]. rewrite mget_mset_same. discriminate.
+        * apply Hknown; [lia|]. apply settle_defined.
+        * apply Hknown; [lia|]. rewrite mget_mset_same. discriminate.
+  Qed.
+End GatherTotal.
+
+(* ---------- gather against a provider that is a function of the ID ---------- *)
+Fixpoint admissible (acc l : list event) : bool :=
+  match l with
+  | [] => true
+  | a :: r => is_state a && negb (conflict a acc) && admissible (acc ++ [a]) r
+  end.
+
+Lemma admissible_split : forall l acc, admissible acc l = forallb is_state l && tuples_ok acc l.
 Proof.
-  induction 1 as [|a l l' _ IH|a l l' _ IH]; intros pre; auto.
-  - replace (pre ++ a :: l') with ((pre ++ [a]) ++ l') by now rewrite <- app_assoc.
-    replace (pre ++ a :: l) with ((pre ++ [a]) ++ l) by now rewrite <- app_assoc.
-    apply IH.
-  - rewrite H.
-    replace (pre ++ a :: l') with ((pre ++ [a]) ++ l') by now rewrite <- app_assoc.
-    replace (pre ++ a :: l) with ((pre ++ [a]) ++ l) by now rewrite <- app_assoc.
-    apply IH.
+  induction l as [|a r IH]; intros acc; simpl; auto.
+  rewrite IH. destruct (is_state a), (conflict a acc); simpl; auto.
+  now rewrite andb_false_r.
 Qed.
 
-Lemma stut_allowed0 allowed (H : stutter_invariant allowed) e l l' :
-  stut l l' -> allowed e l' = allowed e l.
-Proof. intros S. apply (stut_allowed allowed H e l l' S []). Qed.
-
-(* ---------- gather ---------- *)
 Section GatherSpec.
   Variable prov : N -> presp.
   Hypothesis Hhonest : honest prov.
-  Variable hp : bool.
   Variable resolve : N -> option event.
 
   (* the lookup table agrees with `resolve` wherever it has an entry *)
   Definition Inv (m : emap) : Prop := forall x v, mget m x = Some v -> v = resolve x.
   (* IDs without an entry resolve to what the provider has *)
-  Definition Fresh (m : emap) (aes : list N) : Prop :=
+  Definition Fresh (hp : bool) (m : emap) (aes : list N) : Prop :=
     forall x, In x aes -> mget m x = None -> resolve x = from_prov (eff_prov hp prov) x.
 
-  Definition res_state (x : N) : bool :=
-    match resolve x with Some a => is_state a | None => true end.
   Definition res_list (aes : list N) : list event := flat_map (fun x => opt_list (resolve x)) aes.
 
-  Definition gather_post (aes : list N) (acc : list event) (m : emap)
+  Definition gather_post (hp : bool) (aes : list N) (acc : list event) (m : emap)
              (r : gstatus * list event * emap * unit) : Prop :=
-    if forallb res_state aes then
-      exists d m', r = (GDone, acc ++ d, m', tt) /\ stut (res_list aes) d /\ Inv m' /\
-        (forall x, mget m x <> None -> mget m' x = mget m x) /\
-        (forall x a, mget m' x = Some (Some a) ->
-           mget m x = Some (Some a) \/
-           (In x aes /\ mget m x = None /\ from_prov (eff_prov hp prov) x = Some a))
-    else exists acc' m', r = (GAddErr, acc', m', tt).
+    exists st acc' m', r = (st, acc', m', tt) /\ Inv m' /\
+      (forall x, mget m x <> None -> mget m' x = mget m x) /\
+      (forall x a, mget m' x = Some (Some a) ->
+         mget m x = Some (Some a) \/
+         (In x aes /\ mget m x = None /\ from_prov (eff_prov hp prov) x = Some a)) /\
+      (if admissible acc (res_list aes) then st = GDone /\ acc' = acc ++ res_list aes
+       else st = GAddErr \/ st = GDupTuple).
 
   Lemma Inv_mset m x v : Inv m -> v = resolve x -> Inv (mset m x v).
   Proof.
@@ -90,148 +104,116 @@ Section GatherSpec.
     - rewrite mget_mset_other by exact Hne. apply HI.
   Qed.
 
-  Lemma Fresh_tail m x rest : Fresh m (x :: rest) -> Fresh m rest.
+  Lemma Fresh_tail hp m x rest : Fresh hp m (x :: rest) -> Fresh hp m rest.
   Proof. intros HF y Hy. apply HF. now right. Qed.
 
-  Lemma Fresh_mset m x v rest : Fresh m (x :: rest) -> Fresh (mset m x v) rest.
+  Lemma Fresh_mset hp m x v aes : Fresh hp m aes -> Fresh hp (mset m x v) aes.
   Proof.
     intros HF y Hy. destruct (N.eq_dec y x) as [->|Hne].
     - rewrite mget_mset_same. discriminate.
-    - rewrite mget_mset_other by exact Hne. apply HF. now right.
+    - rewrite mget_mset_other by exact Hne. now apply HF.
   Qed.
 
-  (* continuing after the entry of x was settled without changing the accumulated list *)
-  Lemma gather_post_skip x rest acc m m1 r :
-    resolve x = None ->
-    (forall y, mget m y <> None -> mget m1 y = mget m y) ->
-    (forall y a, mget m1 y = Some (Some a) -> mget m y = Some (Some a)) ->
-    (forall y, mget m1 y = None -> mget m y = None) ->
-    gather_post rest acc m1 r -> gather_post (x :: rest) acc m r.
-  Proof.
-    intros Hres Hmono Hsome Hnone Hpost. unfold gather_post in *.
-    assert (Hrs : res_state x = true) by (unfold res_state; now rewrite Hres).
-    cbn [forallb]. rewrite Hrs. cbn [andb].
-    destruct (forallb res_state rest).
-    - destruct Hpost as (d & m' & -> & Hst & HI & Hm & Hp). exists d, m'. repeat split; auto.
-      + unfold res_list in *. simpl. rewrite Hres. exact Hst.
-      + intros y Hy. assert (H1 : mget m1 y = mget m y) by auto.
-        rewrite Hm; [exact H1 | rewrite H1; exact Hy].
-      + intros y a Hy. destruct (Hp y a Hy) as [H1|(H1 & H2 & H3)].
-        * left. auto.
-        * right. split; [now right|]. split; auto.
-    - auto.
-  Qed.
-
-  (* continuing after event a (= resolve x) was added; d0 is [a] or [a; a] *)
-  Lemma gather_post_add x a rest acc d0 m m1 r :
-    resolve x = Some a -> is_state a = true -> stut [a] d0 ->
+  (* the table m1 extends m by the entry for x *)
+  Lemma gather_post_weaken hp aes acc m m1 r :
     (forall y, mget m y <> None -> mget m1 y = mget m y) ->
     (forall y b, mget m1 y = Some (Some b) ->
-       mget m y = Some (Some b) \/ (y = x /\ mget m y = None /\ from_prov (eff_prov hp prov) y = Some b)) ->
-    (forall y, mget m1 y = None -> mget m y = None) ->
-    gather_post rest (acc ++ d0) m1 r -> gather_post (x :: rest) acc m r.
+       mget m y = Some (Some b) \/ (In y aes /\ mget m y = None /\ from_prov (eff_prov hp prov) y = Some b)) ->
+    gather_post hp aes acc m1 r -> gather_post hp aes acc m r.
   Proof.
-    intros Hres Hst0 Hd0 Hmono Hsome Hnone Hpost. unfold gather_post in *.
-    assert (Hrs : res_state x = true) by (unfold res_state; now rewrite Hres).
-    cbn [forallb]. rewrite Hrs. cbn [andb].
-    destruct (forallb res_state rest).
-    - destruct Hpost as (d & m' & -> & Hst & HI & Hm & Hp). exists (d0 ++ d), m'. repeat split; auto.
-      + now rewrite app_assoc.
-      + unfold res_list in *. simpl. rewrite Hres. simpl.
-        change (a :: flat_map (fun x0 => opt_list (resolve x0)) rest)
-          with ([a] ++ flat_map (fun x0 => opt_list (resolve x0)) rest).
-        apply stut_app; auto.
-      + intros y Hy. assert (H1 : mget m1 y = mget m y) by auto.
-        rewrite Hm; [exact H1 | rewrite H1; exact Hy].
-      + intros y b Hy. destruct (Hp y b Hy) as [H1|(H1 & H2 & H3)].
-        * destruct (Hsome y b H1) as [H4|(-> & H4 & H5)]; [now left|].
-          right. split; [now left|]. split; auto.
-        * right. split; [now right|]. split; auto.
-    - auto.
+    intros Hmono Hsome (st & acc' & m' & -> & HI & Hm & Hp & Hif).
+    exists st, acc', m'. split; auto. split; auto. split; [|split; auto].
+    - intros y Hy. assert (H1 : mget m1 y = mget m y) by auto.
+      rewrite Hm; [exact H1 | rewrite H1; exact Hy].
+    - intros y b Hy. destruct (Hp y b Hy) as [H1|(H1 & H2 & H3)]; auto.
+      right. split; auto. split; auto.
+      destruct (mget m y) eqn:Hmy; auto. rewrite Hmono in H2; congruence.
   Qed.
 
-  Lemma gather_spec : forall aes fuel acc m,
-    (2 * length aes < fuel)%nat -> Inv m -> Fresh m aes ->
-    gather_post aes acc m (gather unit (pcall_of prov) fuel hp aes acc m tt).
+  Lemma gather_post_cons_none hp x rest acc m r :
+    resolve x = None -> gather_post hp rest acc m r -> gather_post hp (x :: rest) acc m r.
   Proof.
-    induction aes as [|x rest IH]; intros fuel acc m Hfuel HI HF.
+    intros Hres (st & acc' & m' & -> & HI & Hm & Hp & Hif).
+    exists st, acc', m'. split; auto. split; auto. split; auto. split.
+    - intros y b Hy. destruct (Hp y b Hy) as [H|(H1 & H2 & H3)]; auto.
+      right. split; [now right|auto].
+    - unfold res_list in *. simpl. rewrite Hres. exact Hif.
+  Qed.
+
+  (* the step at an ID whose entry exists, given the statement for the rest *)
+  Lemma gather_step_known hp x rest f acc m v :
+    (forall fuel acc m, (2 * length rest < fuel)%nat -> Inv m -> Fresh hp m rest ->
+        gather_post hp rest acc m (gather unit (pcall_of prov) fuel hp rest acc m tt)) ->
+    mget m x = Some v -> (2 * length rest < f)%nat -> Inv m -> Fresh hp m rest ->
+    gather_post hp (x :: rest) acc m (gather unit (pcall_of prov) (S f) hp (x :: rest) acc m tt).
+  Proof.
+    intros IH Hmx Hf HI HF. pose proof (HI x _ Hmx) as Hr. simpl gather. rewrite Hmx.
+    destruct v as [a|].
+    - (* an event *)
+      assert (Hl : res_list (x :: rest) = a :: res_list rest)
+        by (unfold res_list; simpl; now rewrite <- Hr).
+      destruct (is_state a) eqn:Hsa.
+      + destruct (conflict a acc) eqn:Hc.
+        * exists GDupTuple, acc, m. split; auto. split; auto. split; auto. split; [now left|].
+          rewrite Hl. simpl. rewrite Hsa, Hc. simpl. now right.
+        * destruct (IH f (acc ++ [a]) m Hf HI HF) as (st & acc' & m' & -> & HI' & Hm & Hp & Hif).
+          exists st, acc', m'. split; auto. split; auto. split; auto. split.
+          -- intros y b Hy. destruct (Hp y b Hy) as [H|(H1 & H2 & H3)]; auto.
+             right. split; [now right|auto].
+          -- rewrite Hl. simpl. rewrite Hsa, Hc. simpl.
+             destruct (admissible (acc ++ [a]) (res_list rest)); auto.
+             destruct Hif as [-> ->]. split; auto. now rewrite <- app_assoc.
+      + exists GAddErr, acc, m. split; auto. split; auto. split; auto. split; [now left|].
+        rewrite Hl. simpl. rewrite Hsa. simpl. now left.
+    - (* nil *)
+      apply gather_post_cons_none; auto.
+  Qed.
+
+  Lemma gather_spec : forall hp aes fuel acc m,
+    (2 * length aes < fuel)%nat -> Inv m -> Fresh hp m aes ->
+    gather_post hp aes acc m (gather unit (pcall_of prov) fuel hp aes acc m tt).
+  Proof.
+    intros hp. induction aes as [|x rest IH]; intros fuel acc m Hfuel HI HF.
     - destruct fuel as [|f]; [simpl in Hfuel; lia|]. simpl.
-      exists [], m. rewrite app_nil_r. repeat split; auto using stut_nil.
-    - destruct fuel as [|f]; [simpl in Hfuel; lia|].
-      simpl in Hfuel. simpl gather.
-      destruct (mget m x) as [[a|]|] eqn:Hmx.
-      + (* an event is recorded *)
-        pose proof (HI x _ Hmx) as Hr. symmetry in Hr.
-        destruct (is_state a) eqn:Hsa.
-        * eapply (gather_post_add x a rest acc [a] m m); eauto using stut_refl.
-          apply IH; auto; [lia|]. eapply Fresh_tail; eauto.
-        * unfold gather_post.
-          assert (Hrs : res_state x = false) by (unfold res_state; now rewrite Hr).
-          cbn [forallb]. rewrite Hrs. cbn [andb]. eauto.
-      + (* nil is recorded *)
-        pose proof (HI x _ Hmx) as Hr. symmetry in Hr.
-        eapply (gather_post_skip x rest acc m m); eauto.
-        apply IH; auto; [lia|]. eapply Fresh_tail; eauto.
-      + (* no entry *)
-        pose proof (HF x (or_introl eq_refl) Hmx) as Hr.
-        destruct hp eqn:Hhp.
-        * (* ask the provider *)
+      exists GDone, acc, m. split; auto. split; auto. split; auto. split; [now left|].
+      simpl. now rewrite app_nil_r.
+    - destruct fuel as [|f]; [simpl in Hfuel; lia|]. simpl in Hfuel.
+      destruct (mget m x) as [v|] eqn:Hmx.
+      + apply (gather_step_known hp x rest f acc m v IH Hmx); auto; [lia|]. eapply Fresh_tail; eauto.
+      + pose proof (HF x (or_introl eq_refl) Hmx) as Hr.
+        simpl gather. rewrite Hmx.
+        destruct hp.
+        * (* ask the provider; afterwards x has an entry v1 = resolve x *)
           unfold eff_prov, from_prov in Hr. simpl in Hr.
-          assert (Hskip : forall r, gather_post rest acc (mset m x None) r ->
-                   resolve x = None -> gather_post (x :: rest) acc m r).
-          { intros r Hp Hn. eapply (gather_post_skip x rest acc m (mset m x None)); eauto.
+          destruct f as [|f']; [lia|].
+          assert (Hgo : forall v1, v1 = resolve x ->
+                    (forall b, v1 = Some b -> from_prov (eff_prov true prov) x = Some b) ->
+                    gather_post true (x :: rest) acc m
+                      (gather unit (pcall_of prov) (S f') true (x :: rest) acc (mset m x v1) tt)).
+          { intros v1 Hv1 Hfp.
+            apply (gather_post_weaken true (x :: rest) acc m (mset m x v1)).
             - intros y Hy. apply mget_mset_other. intros ->. congruence.
             - intros y b. destruct (N.eq_dec y x) as [->|Hne].
-              + rewrite mget_mset_same. discriminate.
-              + now rewrite mget_mset_other.
-            - intros y. destruct (N.eq_dec y x) as [->|Hne].
-              + rewrite mget_mset_same. discriminate.
-              + now rewrite mget_mset_other. }
-          assert (Hnil : resolve x = None ->
-                   gather_post (x :: rest) acc m
-                     (gather unit (pcall_of prov) f true (x :: rest) acc (mset m x None) tt)).
-          { intros Hn. destruct f as [|f']; [lia|]. simpl gather. rewrite mget_mset_same.
-            apply Hskip; auto. apply IH; [lia| |].
-            - apply Inv_mset; auto.
-            - apply Fresh_mset; auto. }
+              + rewrite mget_mset_same. intros [= ->]. right. split; [now left|]. split; auto.
+              + rewrite mget_mset_other by exact Hne. now left.
+            - apply (gather_step_known true x rest f' acc (mset m x v1) v1).
+              + intros; apply IH; auto.
+              + apply mget_mset_same.
+              + lia.
+              + apply Inv_mset; auto.
+              + apply Fresh_mset. eapply Fresh_tail; eauto. }
           unfold pcall_of. simpl existsb. simpl flat_map.
           destruct (prov x) as [| |a] eqn:Hpx; simpl.
-          -- apply Hnil. exact Hr.
-          -- apply Hnil. exact Hr.
-          -- pose proof (Hhonest x a Hpx) as Hid.
-             destruct (is_state a) eqn:Hsa; rewrite Hid.
-             ++ destruct f as [|f']; [lia|]. simpl gather. rewrite mget_mset_same, Hsa.
-                eapply (gather_post_add x a rest acc [a; a] m (mset m x (Some a))); eauto.
-                ** apply stut_dup, stut_nil.
-                ** intros y Hy. apply mget_mset_other. intros ->. congruence.
-                ** intros y b. destruct (N.eq_dec y x) as [->|Hne].
-                   --- rewrite mget_mset_same. intros [= <-]. right.
-                       split; [reflexivity|]. split; [exact Hmx|].
-                       unfold eff_prov, from_prov. rewrite Hhp. now rewrite Hpx, Hsa.
-                   --- rewrite mget_mset_other by exact Hne. now left.
-                ** intros y. destruct (N.eq_dec y x) as [->|Hne].
-                   --- rewrite mget_mset_same. discriminate.
-                   --- now rewrite mget_mset_other.
-                ** replace (acc ++ [a; a]) with ((acc ++ [a]) ++ [a]) by now rewrite <- app_assoc.
-                   apply IH; [lia| |].
-                   --- apply Inv_mset; auto.
-                   --- apply Fresh_mset; auto.
-             ++ apply Hnil. exact Hr.
+          -- apply Hgo; auto. discriminate.
+          -- apply Hgo; auto. discriminate.
+          -- pose proof (Hhonest x a Hpx) as Hid. rewrite Hid.
+             unfold settle. rewrite mget_mset_same.
+             apply Hgo.
+             ++ rewrite Hr. reflexivity.
+             ++ intros b Hb. unfold eff_prov, from_prov. rewrite Hpx. exact Hb.
         * (* no provider *)
           unfold eff_prov, from_prov in Hr. simpl in Hr.
-          eapply (gather_post_skip x rest acc m m); eauto.
+          apply gather_post_cons_none; auto.
           apply IH; auto; [lia|]. eapply Fresh_tail; eauto.
   Qed.
 End GatherSpec.
-
-(* ---------- liveness note ----------
-   A provider that answers every request for x with some other state event d makes the retry
-   loop of checkAllowedByAuthEvents run for ever: the model runs out of fuel whatever the fuel. *)
-Lemma gather_spins (d : event) (x : N) (rest : list N) :
-  eid d <> x -> is_state d = true ->
-  forall fuel acc m (ps : unit), mget m x = None ->
-  fst (fst (fst (gather unit (fun ps _ => (ps, PEvents [d])) fuel true (x :: rest) acc m ps))) = GOutOfFuel.
-Proof.
-  intros Hne Hst. induction fuel as [|f IH]; intros acc m ps Hm; simpl; auto.
-  rewrite Hm, Hst. apply IH. rewrite mget_mset_other; auto.
-Qed.
